@@ -152,6 +152,17 @@ class CtxGenV:
 
 
 @dataclass(frozen=True)
+class GenV:
+    """A generator object that has not run yet (generator function, bound arguments); consumed by a for statement."""
+    fi: object
+    args: tuple
+    kwargs: tuple
+
+    def __repr__(self):
+        return f"Gen({self.fi.qualname})"
+
+
+@dataclass(frozen=True)
 class LambdaV:
     node: object
     frame_id: int
